@@ -149,16 +149,16 @@ class LevyCopula2dSeriesRepresentation(Process):
             elements_n1 = slice_1[np.flatnonzero(np.multiply(n1, W1) <= 1)]
             elements_n2 = slice_2[np.flatnonzero(np.multiply(n2, W2) <= 1)]
 
-            inverse_marginal1_gamma11 = np.sum(
+            inverse_marginal1_gamma11 = sum(
                 ivt(i=0, x=x) for x in gamma_11[elements_n1]
             )
-            inverse_marginal1_gamma21 = np.sum(
+            inverse_marginal1_gamma21 = sum(
                 ivt(i=0, x=x) for x in gamma_21[elements_n2]
             )
-            inverse_marginal2_gamma12 = np.sum(
+            inverse_marginal2_gamma12 = sum(
                 ivt(i=1, x=x) for x in gamma_12[elements_n1]
             )
-            inverse_marginal2_gamma22 = np.sum(
+            inverse_marginal2_gamma22 = sum(
                 ivt(i=1, x=x) for x in gamma_22[elements_n2]
             )
 
